@@ -113,11 +113,44 @@ TDone ==
         /\ E.res = "injected" /\ sy[E.r].pc # "idle"
         /\ SyncAbort(E.r) /\ Post(E.r)
 
-TObserve == IsEvent("Observe") /\ PostNow(E.r) /\ UNCHANGED vars
+Count(ops, P(_)) == Cardinality({i \in DOMAIN ops : P(ops[i])})
+IsUndoPoint(o) == o.k = "P"
+IsChange(o) == o.k # "P"
+TObserve ==
+  /\ IsEvent("Observe") /\ PostNow(E.r) /\ UNCHANGED vars
+  /\ E.nlocal = Count(db[E.r].ops, IsChange)       \* num_local_operations
+  /\ E.nundo = Count(db[E.r].ops, IsUndoPoint)     \* num_undo_points
+
+(* commit_operations returned an error (injected storage failure): nothing changed *)
+TEditFail == IsEvent("Edit") /\ E.res = "error" /\ PostNow(E.r) /\ UNCHANGED vars
+
+(* the working set as left behind by an earlier program using the storage API directly *)
+TInstallWS ==
+  /\ IsEvent("InstallWS") /\ sy[E.r].pc = "idle"
+  /\ db' = [db EXCEPT ![E.r].ws = E.ws]
+  /\ Post(E.r)
+  /\ UNCHANGED <<chain, snap, sy, err>>
+
+TGetUndo ==
+  /\ IsEvent("GetUndo") /\ JOpsOK(E.ops)
+  /\ JOps(E.ops) = UndoOps(db[E.r])
+  /\ UNCHANGED vars
+
+TUndo ==
+  /\ IsEvent("Undo") /\ JOpsOK(E.undo)
+  /\ E.res = UndoResult(db[E.r], JOps(E.undo))
+  /\ CommitReversed(E.r, JOps(E.undo))
+  /\ Post(E.r)
+
+(* an injected storage failure inside the undo transaction: nothing changed *)
+TUndoFail == IsEvent("Undo") /\ E.res = "injected" /\ PostNow(E.r) /\ UNCHANGED vars
+
+TRebuildLocal == IsEvent("Rebuild") /\ Rebuild(E.r, E.renumber) /\ Post(E.r)
 
 TNext ==
   \/ TReset \/ TEdit \/ TStart \/ TGetSnapshot \/ TPull \/ TPush \/ TPushLost
   \/ TSnapshot \/ TSnapshotLost \/ TFault \/ TCommit \/ TRebuild \/ TDone \/ TObserve
+  \/ TEditFail \/ TInstallWS \/ TGetUndo \/ TUndo \/ TUndoFail \/ TRebuildLocal
 
 TInit == Init /\ l = 1
 TSpec == TInit /\ [][TNext]_tvars
